@@ -58,7 +58,7 @@ PROPS = {
         not_yet_proved=[],
     ),
     "C05": dict(
-        extra_modules=["CstModel.Proofs.Conc"],
+        extra_modules=["CstModel.Props.GenNode", "CstModel.Proofs.Conc"],
         tags=["C05", "C06"],
         runs=runs([("conc:traverse", "release")],
                   [("conc:traverse", "release"), ("conc:traverse", "debug"), ("conc:lifecycle", "release")]),
@@ -76,7 +76,7 @@ PROPS = {
         not_yet_proved=[],
     ),
     "C06": dict(
-        extra_modules=["CstModel.Proofs.Conc"],
+        extra_modules=["CstModel.Props.GenNode", "CstModel.Proofs.Conc"],
         tags=["C06", "C05", "C08"],   # the slot / lock discipline the counter compensation relies on is evaluated on the same executions;
                                       # the teardown releases data and resolver on whichever thread drops last: only sound for thread-safe ones (marker probes)
         runs=runs([("conc:lifecycle", "release"), ("conc:traverse", "release"), ("miri:all", "miri"), ("probe:c08", "rustc"), ("queries", "release"), ("red", "release")],
@@ -99,7 +99,7 @@ PROPS = {
         not_yet_proved=[],   # the recursive teardown is Model/Teardown (teardown_frees_each_once / teardown_safe / teardown_counter)
     ),
     "C07": dict(
-        extra_modules=["CstModel.Proofs.MemModel", "CstModel.Proofs.MemSlots"],
+        extra_modules=["CstModel.Props.GenNode", "CstModel.Proofs.MemModel", "CstModel.Proofs.MemSlots"],
         # a premature / double free or an access outside its lock found by the scheduler is a conflicting pair of accesses that
         # nothing orders; a handle type that is Send/Sync for data that is not lets safe code share that data unsynchronised
         tags=["C07", "C06", "C05", "C08"],
